@@ -402,3 +402,28 @@ func zzH_C02_set_bft_parameters_effect(t *zzT) { zzH_C03_set_bft_parameters_effe
 //
 //zz:opt loop=24
 func zzH_C01_set_bft_parameters_effect(t *zzT) { zzH_C03_set_bft_parameters_effect(t) }
+
+// C02 at the start of the chain: after the genesis block (any height — a regenesis / migrated chain starts at a
+// non-zero height) the prevoted, precommitted and certified heights are all the genesis height (LIP-0058), whatever
+// the genesis header's aggregate commit says; the first block processed on top keeps them until votes arrive.
+// (seed C02-10 took the certified height of the genesis state from the genesis header's aggregate commit.)
+//
+//zz:opt loop=24
+func zzH_C02_genesis_heights(t *zzT) {
+	m := NewModule()
+	m.Init(4)
+	d := diffdb.New(&zzMemStore{}, []byte{})
+	gh := t.U32("genesis.height")
+	t.Assume(gh < 1<<31)
+	g := &blockchain.BlockHeader{Version: 0, Height: gh, AggregateCommit: &blockchain.AggregateCommit{Height: t.U32("genesis.aggregateCommit.height")}, ID: []byte{0}}
+	t.Assert(m.InitGenesisState(g.Readonly(), d) == nil, "genesis state initialised")
+	p, c, f, err := m.API().GetBFTHeights(d)
+	t.Assert(err == nil && p == gh && c == gh && f == gh, "after genesis the prevoted, precommitted and certified heights are the genesis height")
+	vals := BFTValidators{{address: []byte{0xa0, 0}, bftWeight: 1, blsKey: []byte{1}}, {address: []byte{0xa0, 1}, bftWeight: 1, blsKey: []byte{2}}}
+	t.Assert(m.API().SetBFTParameters(d, 2, 2, vals) == nil, "genesis parameters stored")
+	hdr := &blockchain.BlockHeader{Version: 2, Height: gh + 1, GeneratorAddress: []byte{0xa0, 0}, MaxHeightPrevoted: gh, AggregateCommit: &blockchain.AggregateCommit{Height: gh}, ID: []byte{1}}
+	t.Assert(m.BeforeTransactionsExecute(hdr.Readonly(), d) == nil, "first block processed")
+	p, c, f, err = m.API().GetBFTHeights(d)
+	t.Assert(err == nil && p == gh && c == gh && f == gh, "one block of one of two validators changes none of the heights")
+	t.Reach("end")
+}
